@@ -133,11 +133,13 @@ def discharge_rule(rep, prog, tier):
     merged, unsumm, steps, allocs = gather_obligations(rep, prog, tier)
     fns = reachable_fns(prog, ENTRY, LIBS)
     n_sites = n_ok = n_allow = n_macro = 0
+    matched = set()
     for path in sorted(fns):
         fn = prog.fns[path]
         for kind, detail, blk, sp in panic_sites(prog, fn):
             key = obligation_key(None, fn, kind, detail, sp)
             ob = merged.get(key)
+            matched.add(key)
             n_sites += 1
             pf = pub_fn(path)
             akey = (pf, "%s:%s" % (kind, detail))
@@ -160,6 +162,16 @@ def discharge_rule(rep, prog, tier):
                 rep.violation("R1", "%s:%s:%s" % (pf, kind, detail), "%s: panic site %s %s at %s is not proved safe: %s" % (pf, kind, detail, where, ob["detail"]), site=where, detail={"sources": sorted(ob["sources"])})
             else:
                 rep.violation("R1", "%s:%s:%s:unvisited" % (pf, kind, detail), "%s: panic site %s %s at %s was never reached by any analysis run, so it is not discharged (fail closed)" % (pf, kind, detail, where), site=where)
+    # fail closed: a site that an analysis run saw failing but the static inventory does not list (call graph gap)
+    for k, ob in sorted(merged.items()):
+        if ob["failed"] and k not in matched:
+            fpath = k.split("|")[0]
+            f = prog.fns.get(fpath)
+            if f is not None and f["crate"] in LIBS:
+                what = k.split("|")[2] if k.count("|") >= 2 else "?"
+                if (pub_fn(fpath), what) in ALLOW:
+                    continue
+                rep.violation("R1", "%s:%s:uninventoried" % (pub_fn(fpath), what), "%s: panic site %s (%s) fails in an analysis run and is not in the reachable-site inventory: %s" % (fpath, what, k.split("|")[1], ob["detail"]), detail={"sources": sorted(ob["sources"])})
     rep.extra["obligations"] = n_sites
     rep.extra["discharged"] = n_ok
     rep.extra["allow_listed"] = n_allow
